@@ -448,6 +448,29 @@ func ruleC06_1(c *Ctx) {
 			}
 		}
 		if exp == nil {
+			// the expiry check inside a head helper whose success guarantees the check's success
+			for _, call := range allCalls(e.f) {
+				fe, ok := c.frameEntry(e, call)
+				if !ok || !hasErrResult(call) {
+					continue
+				}
+				for _, ic := range allCalls(fe.f) {
+					li := c.expiryCheckerLike(ic.Common().StaticCallee(), 0)
+					if li < 0 {
+						continue
+					}
+					if k, _ := c.layoutValue(fe, ic.Common().Args[li], ic, 0); k != "" {
+						if c.helperGuarantees(fe.f, ic) {
+							exp = call
+							c.ok(R, fname(fe.f), "expiry check inside the head helper", ic.Pos(), calleeName(ic)+"(layout) with layout from the verified payload; every success return of the helper lies under its nil-error edge")
+						} else {
+							c.bad(R, fname(fe.f), "expiry check inside the head helper", ic.Pos(), "the helper calls "+calleeName(ic)+" on the verified layout, but a return of the helper with a possibly nil error is reachable without that call having returned nil (its error is dropped or overwritten): an expired layout passes")
+						}
+					}
+				}
+			}
+		}
+		if exp == nil {
 			c.bad(R, fn, "expiry check", e.f.Pos(), "no call of an expiry check (a function that parses layout.Expires and compares it with the clock, e.g. VerifyLayoutExpiration) on the verified layout")
 			continue
 		}
@@ -775,7 +798,7 @@ func init() {
 			{ID: "R-C08-2", Doc: "keys passed down: exactly parent.Keys[k] under k", Min: 3, Run: ruleC08_2},
 			{ID: "R-C08-3", Doc: "summary replaces the link under the same key; step name = outer key", Min: 2, Run: ruleC08_3},
 			{ID: "R-C08-4", Doc: "sublayout link directory format", Min: 2, Run: ruleC08_4},
-			{ID: "R-C08-5", Doc: "consumers assert Link with comma-ok", Min: 6, Run: ruleC08_5},
+			{ID: "R-C08-5", Doc: "consumers assert Link with comma-ok", Min: 3, Run: ruleC08_5},
 			a1Rule(1, "in_toto.VerifySublayouts"),
 		}})
 }
@@ -1057,12 +1080,25 @@ func ruleC08_4(c *Ctx) {
 
 func ruleC08_5(c *Ctx) {
 	const R = "R-C08-5"
-	for _, n := range []string{"in_toto.ReduceStepsMetadata", "in_toto.VerifyArtifacts", "in_toto.GetSummaryLink", "in_toto.verifyMatchRule", "in_toto.VerifyStepCommandAlignment", "in_toto.RunInspections"} {
-		f := c.lookup(n)
-		if f == nil {
-			c.undecided(R, n, "anchor", 0, "function not found")
-			continue
+	// every function of the module below the verification entry points (the consumers of the verified map and the
+	// helpers they obtain links through)
+	var roots []*ssa.Function
+	for _, e := range c.entryPoints() {
+		roots = append(roots, e.f)
+	}
+	if len(roots) == 0 {
+		c.undecided(R, "in_toto", "anchors", 0, "entry points not found")
+		return
+	}
+	var fs []*ssa.Function
+	for f := range reachable(c.CG, roots...) {
+		if f.Blocks != nil && f.Pkg != nil && f.Pkg == c.pkg("in_toto") {
+			fs = append(fs, f)
 		}
+	}
+	sort.Slice(fs, func(i, j int) bool { return fname(fs[i]) < fname(fs[j]) })
+	for _, f := range fs {
+		n := fname(f)
 		for _, b := range f.Blocks {
 			for _, in := range b.Instrs {
 				ta, ok := in.(*ssa.TypeAssert)
@@ -1546,7 +1582,10 @@ func (c *Ctx) optionWiring(e entry, ri *stageCall) {
 		}
 	}
 	isUseDSSE := func(v ssa.Value, at ssa.Instruction) bool {
-		// `_, useDSSE := layoutEnv.(*Envelope)`
+		// `_, useDSSE := layoutEnv.(*Envelope)`, possibly handed back by a transparent helper
+		if org(resolve(v, at)) == fmt.Sprintf("ok(p%d.(*in_toto.Envelope))", paramIndex(e.env)) {
+			return true
+		}
 		if ex, ok := resolve(v, at).(*ssa.Extract); ok && ex.Index == 1 {
 			if ta, ok := ex.Tuple.(*ssa.TypeAssert); ok && ta.CommaOk && ta.X == ssa.Value(e.env) && typeStr(ta.AssertedType) == "*in_toto.Envelope" {
 				return true
